@@ -190,7 +190,8 @@ fn reader_strategy(tier: Tier) -> BoxedStrategy<RCase> {
     (
         gen::mode4(),
         prop_oneof![2 => Just(0u32), 2 => 0u32..=5000, 1 => crate::gen::select(vec![1u32, 63, 64, 1023, 1024, 1025, 3072])],
-        gen::len_lattice(max).prop_map(|l| l as u32),
+        // mostly the lattice up to `max`; one in ten a long stream (1-5 MiB: more than any internal buffer)
+        prop_oneof![9 => gen::len_lattice(max).prop_map(|l| l as u32), 1 => (1u32 << 20)..=(5u32 << 20)],
         gen::content(),
         prop::collection::vec(ev_strategy(), 0..40),
         0u16..=3000,
@@ -301,8 +302,9 @@ fn file_items(tier: Tier) -> Box<dyn Iterator<Item = FCase>> {
     lens.extend([32767, 32768, 32769, 65535, 65536, 65537, 131071, 131072, 131073, 262144 + 1]);
     if tier == Tier::Thorough {
         lens.extend((16384 - 70..=16384 + 70).filter(|x| !(16370..=16400).contains(x)));
-        lens.extend([1 << 20, (1 << 20) + 1, (1 << 22) - 1, 1 << 22, 3 * (1 << 20) + 1023]);
+        lens.extend([(1 << 22) - 1, 1 << 22, 3 * (1 << 20) + 1023]);
     }
+    lens.extend([1 << 20, (1 << 20) + 1, (1 << 21) + 5]);
     for (i, len) in lens.iter().enumerate() {
         let mode = match i % 3 {
             0 => ModeC::Hash,
@@ -322,7 +324,7 @@ fn file_items(tier: Tier) -> Box<dyn Iterator<Item = FCase>> {
 
 fn file_strategy(tier: Tier) -> BoxedStrategy<FCase> {
     let max = tier.pick(512 * 1024u32, 8 * 1024 * 1024u32);
-    (gen::mode4(), prop_oneof![3 => Just(0u16), 1 => 1u16..=3000], prop_oneof![3 => 16300u32..=16500, 2 => 0u32..=70_000, 2 => 0u32..=max], gen::content())
+    (gen::mode4(), prop_oneof![3 => Just(0u16), 1 => 1u16..=3000], prop_oneof![6 => 16300u32..=16500, 4 => 0u32..=70_000, 4 => 0u32..=max, 1 => (1u32 << 20)..=(5u32 << 20)], gen::content())
         .prop_map(|(mode, prefix_len, len, content)| FCase::Regular { mode, prefix_len, len, content })
         .boxed()
 }
